@@ -226,9 +226,14 @@ func (rd *Round) hasStray() bool {
 	for _, s := range rd.After {
 		after[s.Path] = true
 	}
-	before := map[string]bool{}
+	before := map[string]bool{} // the prior state after the run's own removals
 	for _, s := range rd.Before {
 		before[s.Path] = true
+	}
+	for _, e := range rd.Force.Events {
+		if e.Kind == "RM" {
+			delete(before, e.Path)
+		}
 	}
 	for _, s := range rd.Before {
 		if !after[s.Path] {
